@@ -198,8 +198,14 @@ class State(object):
         self.heap['tyof'] = z3.Store(self.heap['tyof'], v.t, z3.IntVal(cls_tag(v.ty)))
 
     # ---- lists -----------------------------------------------------------------------------
-    def _len_arr(self):
-        return self.H('len', arr(z3.IntSort(), z3.IntSort()))
+    def len_family(self, elem_ty):
+        """list lengths are kept per element sort, like the element arrays"""
+        name = 'len.' + sortkey(elem_ty)
+        self.H(name, arr(z3.IntSort(), z3.IntSort()))
+        return name
+
+    def _len_arr(self, elem_ty=None):
+        return self.heap[self.len_family(elem_ty)]
 
     def el_family(self, elem_ty):
         name = 'el.' + sortkey(elem_ty)
@@ -207,7 +213,7 @@ class State(object):
         return name
 
     def list_len(self, lst):
-        n = z3.Select(self._len_arr(), lst.t)
+        n = z3.Select(self._len_arr(lst.ty.args[0]), lst.t)
         self.assume(n >= 0)
         return n
 
@@ -225,8 +231,8 @@ class State(object):
         fam = self.el_family(lst.ty.args[0])
         self.heap[fam] = z3.Store(self.heap[fam], lst.t, elems_arr)
         if n is not None:
-            self._len_arr()
-            self.heap['len'] = z3.Store(self.heap['len'], lst.t, n)
+            lf = self.len_family(lst.ty.args[0])
+            self.heap[lf] = z3.Store(self.heap[lf], lst.t, n)
 
     def list_store(self, lst, idx, sv):
         ety = lst.ty.args[0]
@@ -281,8 +287,10 @@ class State(object):
                 return kv
         raise Unsupported('not a dict: ' + str(d.ty))
 
-    def _dh(self, kty):
-        name = 'dh.' + sortkey(kty)
+    def _dh(self, kty, vty=None):
+        # key-presence arrays are kept per (key sort, value sort), like the value arrays: dicts of different value
+        # types never share a heap family
+        name = 'dh.%s.%s' % (sortkey(kty), sortkey(vty))
         self.H(name, arr(z3.IntSort(), arr(sort_of(kty), z3.BoolSort())))
         return name
 
@@ -297,7 +305,7 @@ class State(object):
 
     def dict_has(self, d, key):
         kty, vty = self.dict_types(d)
-        return z3.Select(z3.Select(self.heap[self._dh(kty)], d.t), pack(key, kty))
+        return z3.Select(z3.Select(self.heap[self._dh(kty, vty)], d.t), pack(key, kty))
 
     def dict_get(self, d, key):
         kty, vty = self.dict_types(d)
@@ -315,7 +323,7 @@ class State(object):
     def dict_set(self, d, key, val):
         kty, vty = self.dict_types(d)
         k = pack(key, kty)
-        dh, dv = self._dh(kty), self._dv(kty, vty)
+        dh, dv = self._dh(kty, vty), self._dv(kty, vty)
         had = z3.Select(z3.Select(self.heap[dh], d.t), k)
         # key order: append when new.  The key list is replaced by a fresh ghost list object so
         # that aliasing with earlier snapshots of the key list (iteration) stays sound.
@@ -323,6 +331,7 @@ class State(object):
         n = self.list_len(kl)
         elems = self.list_elems(kl)
         newkl = self.new_list_sym(kty, z3.If(had, n, n + 1), z3.If(had, elems, z3.Store(elems, n, k)))
+        self._dk()
         self.heap['dk'] = z3.Store(self.heap['dk'], d.t, newkl.t)
         self.heap[dh] = z3.Store(self.heap[dh], d.t, z3.Store(z3.Select(self.heap[dh], d.t), k, z3.BoolVal(True)))
         self.heap[dv] = z3.Store(self.heap[dv], d.t, z3.Store(z3.Select(self.heap[dv], d.t), k, pack(val, vty)))
@@ -331,11 +340,12 @@ class State(object):
         r = self.new_ref()
         d = SV(Dict(kty, vty) if cls is None else Ref(cls), r)
         self.set_tag(d)
-        dh = self._dh(kty)
+        dh = self._dh(kty, vty)
         self._dv(kty, vty)
         self.heap[dh] = z3.Store(self.heap[dh], r, z3.K(sort_of(kty), z3.BoolVal(False)))
         kl = self.new_list(kty, [])
-        self.heap[self._dk()] = z3.Store(self.heap['dk'], r, kl.t)
+        self._dk()
+        self.heap['dk'] = z3.Store(self.heap['dk'], r, kl.t)
         return d
 
     def dict_key_axioms(self, d):
@@ -344,7 +354,7 @@ class State(object):
         kl = self.dict_keylist(d)
         n = self.list_len(kl)
         elems = self.list_elems(kl)
-        has = z3.Select(self.heap[self._dh(kty)], d.t)
+        has = z3.Select(self.heap[self._dh(kty, vty)], d.t)
         ks = sort_of(kty)
         idx = z3.Function(fresh_name('kidx'), ks, z3.IntSort())
         i = z3.Int(fresh_name('i'))
